@@ -2,12 +2,14 @@ package proxy
 
 import (
 	"context"
+	"crypto/tls"
 	"net"
 
 	"go.temporal.io/api/workflowservice/v1"
 	"go.temporal.io/server/api/adminservice/v1"
 	"go.temporal.io/server/common/log"
 	"google.golang.org/grpc"
+	"google.golang.org/grpc/credentials"
 
 	"github.com/temporalio/s2s-proxy/config"
 	"github.com/temporalio/s2s-proxy/encryption"
@@ -31,11 +33,14 @@ type wrServer struct {
 	admin    *adminServiceProxyServer
 	workflow *workflowServiceProxyServer
 	tls      []encryption.TLSConfig
+	tlsOut   []*tls.Config                    // what the (stubbed) GetServerTLSConfig returned for this server
+	creds    []credentials.TransportCredentials // what was handed to grpc.Creds for this server
 }
 
 var wrServers []*wrServer
 var wrCur *wrServer
 var wrClientTLS []encryption.TLSConfig
+var wrMuxDefs []config.ClusterDefinition
 
 type wrClientConn struct {
 	grpc.ClientConnInterface
@@ -107,6 +112,7 @@ func verifStub_RegisterWorkflow(s grpc.ServiceRegistrar, srv workflowservice.Wor
 }
 
 func verifStub_NewGRPCMuxManager(ctx context.Context, name string, cd config.ClusterDefinition, listener mux.ConnListener, serverDefinition *grpc.Server, logger log.Logger) (mux.MultiMuxManager, error) {
+	wrMuxDefs = append(wrMuxDefs, cd)
 	return wrMux{}, nil
 }
 
@@ -126,7 +132,7 @@ func wrConnType(label string) config.ConnectionType {
 
 // wrBuild runs the real constructor and returns (inbound, outbound) as configured.
 func wrBuild(cfg config.ClusterConnConfig) (*wrServer, *wrServer, error) {
-	wrServers, wrCur, wrClientTLS = nil, nil, nil
+	wrServers, wrCur, wrClientTLS, wrMuxDefs = nil, nil, nil, nil
 	_, err := NewClusterConnection(context.Background(), cfg, wrLoggers())
 	if err != nil {
 		return nil, nil, err
